@@ -11,6 +11,13 @@ package orefafs
 //@   guarded_by mu: nd at dirIndex dirEntries dirNames
 //@   immutable vfs name openMode
 
+// ---- lock discipline (C08) -----------------------------------------------------------------------
+//@ type node
+//@   guarded_by mu: children data mtime mode uid gid nlink
+//@   immutable id
+//@ type OrefaFS
+//@   guarded_by mu: nodes
+
 //@ pred closedErr(e error) := e != nil && e is *fs.PathError && e.(*fs.PathError).Err == fs.ErrClosed
 //@ pred pathErr(e error, inner error) := e != nil && e is *fs.PathError && e.(*fs.PathError).Err == inner
 
@@ -112,8 +119,25 @@ package orefafs
 //@   modifies nothing
 
 //@ func (*node).truncate
+//@   requires wheld(nd.mu)
 //@   requires size >= 0 && size < 4611686018427387904
 //@   modifies nd.data, nd.data[*]
 //@   ensures[C02] len(nd.data) == size
 //@   ensures[C02] forall i int :: 0 <= i && i < size && i < len(old(nd.data)) ==> nd.data[i] == old(nd.data[i])
 //@   ensures[C02] forall i int :: len(old(nd.data)) <= i && i < size ==> nd.data[i] == 0
+
+//@ func (*node).size
+//@   requires held(nd.mu)
+//@   modifies nothing
+//@ func (*node).setOwner
+//@   requires wheld(nd.mu)
+//@   modifies nd.uid, nd.gid
+//@ func (*node).setModTime
+//@   requires wheld(nd.mu)
+//@   modifies nd.mtime
+//@ func (*node).setMode
+//@   requires wheld(nd.mu)
+//@   modifies nd.mode
+//@ func (*node).addChild
+//@   requires wheld(nd.mu)
+//@   modifies nd.children, nd.children[*]
